@@ -752,12 +752,18 @@ Definition slice_eqb (s1 s2 : state) (id : N) : bool :=
   && N.eqb (st_bseq s1 id) (st_bseq s2 id) && (st_mlen s1 id =? st_mlen s2 id).
 Definition escrows_eqb (t : trans) (id : N) : bool :=
   forallb (fun r => forallb (fun d => st_bal (t_post t) (Escrow r id) d =? st_bal (t_pre t) (Escrow r id) d + donated t r id d) denoms) roles.
-(* the auctions a block touches: those that were due for something *)
-Definition touched_by_block (t : trans) (a : auction) : bool :=
+(* the auctions a block touches: those that are DUE for something at the block's time - a waiting auction whose start
+   time has come, an open one whose last end time has come, a vesting one with an unreleased instalment whose release
+   time has come.  Everything else (an open auction before its end, also while ANOTHER auction settles in the same
+   block) must be left completely alone *)
+Definition idle_b (tm : Z) (s : state) (a : auction) : bool :=
   match a_status a with
-  | StandBy | Started | VestingS => true
-  | _ => false
+  | StandBy => tm <? a_start a
+  | Started => tm <? last_end a
+  | VestingS => forallb (fun v => negb ((v_time v <=? tm) && negb (v_released v))) (vqs_of s (a_id a))
+  | Finished | Cancelled => true
   end.
+Definition touched_by_block (t : trans) (a : auction) : bool := negb (idle_b (block_time (t_op t)) (t_pre t) a).
 Definition c19_ok (t : trans) : bool :=
   match t_op t with
   | OGenesis => true
